@@ -80,8 +80,20 @@ def _run_check(pid, P, fam, tier, seed, work, t0):
             print("KNOWN-FINDING: property=%s id=%s %s (reproduced on %d input(s) in this run, e.g. %s)" % (
                 pid, k["id"], k["what"], len({t for t, _ in hits}), json.dumps(inputs[tid])[:200]), flush=True)
 
+    if os.environ.get("VERIF_SURVEY"):
+        # development aid: tabulate the unclassified violation lines instead of reproducing three of them
+        tab = {}
+        for tid, vs in unknown:
+            for v in vs:
+                tab.setdefault(v["aspect"], []).append((tid, v))
+        for asp, hits in sorted(tab.items(), key=lambda kv: -len(kv[1])):
+            log("SURVEY %5d line(s) on %4d input(s): %s" % (len(hits), len({t for t, _ in hits}), asp))
+            for tid, v in hits[:int(os.environ.get("VERIF_SURVEY_EX", "2"))]:
+                log("         input=%s detail=%s" % (json.dumps(inputs[tid])[:160], v["detail"][:int(os.environ.get("VERIF_SURVEY_W", "300"))]))
+        unknown = unknown[:0] if os.environ.get("VERIF_SURVEY") == "only" else unknown
+
     # unknown violations: reproduce each (up to 3) in isolation before believing it
-    violations, unreproduced = [], 0
+    violations, unreproduced, unconfirmed = [], 0, 0
     for n, (tid, vs) in enumerate(unknown[:3]):
         rf = os.path.join(work.dir, "replay-in-%d.json" % n)
         with open(rf, "w") as f:
@@ -100,6 +112,13 @@ def _run_check(pid, P, fam, tier, seed, work, t0):
             print("VIOLATION property=%s replay=%s" % (pid, path), flush=True)
             log("violation: input=%s aspects=%s" % (json.dumps(inputs[tid])[:300], sorted({v["aspect"] for v in again})))
         else:
+            # aspects that rest on the driver's own judgement "the system is idle now" (a bounded wait) can
+            # fire when the machine is overloaded; they are a verdict only when they reproduce in isolation
+            if {v["aspect"] for v in vs} <= set(fam.get("idle_judgement_aspects", [])):
+                unconfirmed += 1
+                log("UNCONFIRMED (idle-detection artefact, %d isolated re-runs were clean): input=%s aspects=%s" % (
+                    fam.get("repro_attempts", 1), json.dumps(inputs[tid])[:300], sorted({v["aspect"] for v in vs})))
+                continue
             unreproduced += 1
             log("NOT REPRODUCED in isolation: input=%s aspects=%s detail=%s" % (json.dumps(inputs[tid])[:300], sorted({v["aspect"] for v in vs}), vs[0]["detail"][:300]))
     if len(unknown) > 3 and violations:
@@ -125,6 +144,7 @@ def _run_check(pid, P, fam, tier, seed, work, t0):
         binding_selftest=st,
         known_findings_seen=sorted(known_hits.keys()),
         violating_inputs=len(unknown),
+        unconfirmed_idle_artefacts=unconfirmed,
         driver_extra=meta.get("extra", {}),
         model_drift_lines=len(drift),
     )
